@@ -95,7 +95,9 @@ class Concrete(core.Surface):
 
     def agree(self, x, i, m):
         if i[0] == "EXC":
-            return True      # the implementation rejected the resolved data on re-validation: C05/C15 territory
+            # the implementation rejected the resolved data on re-validation: C05/C15 territory -- unless the template is valid by
+            # construction (instances of the live schema): then "resolve() raised" means there is no concrete resolved model at all
+            return not x.get("valid")
         return super().agree(x, i, m)
 
     def tags(self, x):
@@ -282,3 +284,8 @@ def cases(rng, tier, shard, nshards):
         yield FIXED, x
         if k % 3 == 0:
             yield EDITED, x
+        if k % 9 == 4:
+            y = tplgen.gen_typed_template(rng, resolvable=True)      # every modelled class, functions (resolvable or not) wherever text is allowed
+            y = {"template": y["template"], "extra": y["extra"], "valid": True}
+            yield CONCRETE, y
+            yield FIXED, y
